@@ -444,3 +444,85 @@ TARGETS = {
     'T13a': {'file': 'frame.py', 'build': build_T13a},
     'T13c': {'file': 'frame.py', 'build': build_T13c},
 }
+
+
+# ------------------------------------------------------------------ T13n: the expressions of the native hand-offs
+def _flatten_order(call, what):
+    """`array.flatten()` / `array.flatten('F')` / `array.flatten(order='F')` -> the order letter ('C' when absent)"""
+    if not (isinstance(call, ast.Call) and ast.unparse(call.func) == 'array.flatten'):
+        raise Unsupported(f'{what}: the frame is no longer flattened with array.flatten(..): {ast.unparse(call)[:60]}')
+    args = list(call.args) + [k.value for k in call.keywords if k.arg == 'order']
+    if len(args) > 1 or any(k.arg != 'order' for k in call.keywords):
+        raise Unsupported(f'{what}: arguments of array.flatten changed')
+    if not args:
+        return 'C'
+    if not (isinstance(args[0], ast.Constant) and args[0].value in ('C', 'F', 'A', 'K')):
+        raise Unsupported(f'{what}: order argument of array.flatten is not a literal')
+    return args[0].value
+
+
+def build_T13n(tree):
+    """What the two native routes of `encode_frame` and the 1-bit route of `decode_frame` DO with the frame (the hand-written
+    part of `Model/Codec.encodeFrame` / `decodeFrame`): order in which the array is flattened before `pack_bits` and before
+    `tobytes`, the byte order of the cells, the shape the unpacked bits are given.  `Proofs/CodecTie.lean` proves that the
+    model uses exactly these."""
+    enc = find_func(tree, 'encode_frame')
+    rets = [n for n in ast.walk(enc) if isinstance(n, ast.Return) and n.value is not None]
+    pk = [r for r in rets if 'pack_bits' in ast.unparse(r)]
+    tb = [r for r in rets if 'tobytes' in ast.unparse(r)]
+    if len(pk) != 1 or len(tb) != 1:
+        raise Unsupported('native returns of encode_frame not found (one pack_bits, one tobytes)')
+    pkc = pk[0].value
+    if not (isinstance(pkc, ast.Call) and ast.unparse(pkc.func) == 'pack_bits' and len(pkc.args) == 1 and not pkc.keywords):
+        raise Unsupported('pack_bits is no longer called with the flattened frame alone: ' + ast.unparse(pkc)[:80])
+    pack_order = _flatten_order(pkc.args[0], 'pack_bits')
+    # array.flatten(..).astype(array.dtype.newbyteorder(B), copy=False).tobytes()
+    t = tb[0].value
+    ok = isinstance(t, ast.Call) and isinstance(t.func, ast.Attribute) and t.func.attr == 'tobytes' and not t.args and not t.keywords
+    a = t.func.value if ok else None
+    ok = ok and isinstance(a, ast.Call) and isinstance(a.func, ast.Attribute) and a.func.attr == 'astype' and len(a.args) == 1 \
+        and [(k.arg, ast.unparse(k.value)) for k in a.keywords] == [('copy', 'False')]
+    nb = a.args[0] if ok else None
+    ok = ok and isinstance(nb, ast.Call) and ast.unparse(nb.func) == 'array.dtype.newbyteorder' and len(nb.args) == 1 \
+        and isinstance(nb.args[0], ast.Constant) and nb.args[0].value in ('<', '>', '=', '|', 'S')
+    if not ok:
+        raise Unsupported('native cells are no longer array.flatten(..).astype(array.dtype.newbyteorder(B), copy=False).tobytes(): '
+                          + ast.unparse(t)[:120])
+    cells_order = _flatten_order(a.func.value, 'tobytes')
+    byte_order = nb.args[0].value
+    # decode_frame, 1-bit native: reshape arguments
+    dec = find_func(tree, 'decode_frame')
+    rs = [n for n in ast.walk(dec) if isinstance(n, ast.Return) and 'pixel_array.reshape' in ast.unparse(n)]
+    guard = [n for n in ast.walk(dec) if isinstance(n, ast.If) and ast.unparse(n.test) == 'samples_per_pixel > 1'
+             and any(r in ast.walk(n) for r in rs)]
+    if len(rs) != 2 or len(guard) != 1:
+        raise Unsupported('1-bit branch of decode_frame: reshape returns not found')
+
+    def shape_of(ret):
+        c = ret.value
+        if not (isinstance(c, ast.Call) and ast.unparse(c.func) == 'pixel_array.reshape' and not c.keywords):
+            raise Unsupported('reshape call changed: ' + ast.unparse(ret))
+        names = [ast.unparse(x) for x in c.args]
+        if not all(n in ('rows', 'columns', 'samples_per_pixel') for n in names):
+            raise Unsupported('reshape arguments are not rows / columns / samples_per_pixel: ' + str(names))
+        return '[' + ', '.join(names) + ']'
+    inner = [r for r in rs if r in list(ast.walk(guard[0]))and any(r in ast.walk(s) for s in guard[0].body)]
+    outer = [r for r in rs if r not in inner]
+    if len(inner) != 1 or len(outer) != 1:
+        raise Unsupported('1-bit branch of decode_frame: reshape returns are no longer `if samples_per_pixel > 1: .. ` / fall-through')
+    text = f'''/-- `encode_frame`, native 1 bit: `pack_bits(array.flatten(..))` -- memory order in which the frame is flattened -/
+def packBitsFlattenOrder : String := "{pack_order}"
+
+/-- `encode_frame`, native cells: `array.flatten(..)....tobytes()` -- memory order in which the frame is flattened -/
+def cellsFlattenOrder : String := "{cells_order}"
+
+/-- `encode_frame`, native cells: `array.dtype.newbyteorder(..)` -- byte order of a cell -/
+def cellsByteOrder : String := "{byte_order}"
+
+/-- `decode_frame`, native 1 bit: the shape the unpacked bits are given (`pixel_array.reshape(..)`) -/
+def decodeOneBitShape (rows columns samples_per_pixel : Nat) : List Nat :=
+  if samples_per_pixel > 1 then {shape_of(inner[0])} else {shape_of(outer[0])}'''
+    return text, span_sha([pk[0], tb[0]] + rs)
+
+
+TARGETS['T13n'] = {'file': 'frame.py', 'build': build_T13n}
